@@ -195,7 +195,7 @@ func (c *Client) List(ctx context.Context, list client.ObjectList, opts ...clien
 		names = append(names, getStr(metaOf(it), "name"))
 		projs = append(projs, c.proj(it))
 	}
-	c.emit(p, "List", k, false, nil, Proj{}, Proj{}, map[string]any{"names": names, "items": projs, "cached": cached})
+	c.emit(p, "List", k, false, nil, Proj{}, Proj{}, map[string]any{"names": names, "items": projs, "cached": cached, "kind": gvk.Kind})
 	ul := &unstructured.UnstructuredList{}
 	ul.SetGroupVersionKind(gvk.GroupVersion().WithKind(gvk.Kind + "List"))
 	for _, it := range items {
